@@ -111,6 +111,26 @@ def gen_handover(repo):
         L.append(f'/-- translated from `plane.py:{cls}.multiply` (line {f.lineno}): the attributes set after `super().multiply` -/')
         body = 'w' if not sets else '{ w with ' + ', '.join(f'{a} := {p}' for a, p in sets) + ' }'
         L.append(f'def {nm} {{M P S T : Type}} (w : WfHandover M P S T) ' + ' '.join(f'({p} : {t})' for p, t in ps) + f' : WfHandover M P S T :=\n  {body}\n')
+    # Wavefront.__init__ (reached through Wavefront.empty -> cls(...)): self.focal_length = focal_length if focal_length else np.inf
+    wmod = ast.parse(open(os.path.join(repo, 'lentil/wavefront.py')).read())
+    emp = _find_method(wmod, 'Wavefront', 'empty')
+    cc = [n for n in ast.walk(emp) if isinstance(n, ast.Call) and ast.unparse(n.func) == 'cls']
+    if len(cc) != 1 or 'focal_length' not in {k.arg: ast.unparse(k.value) for k in cc[0].keywords} \
+            or {k.arg: ast.unparse(k.value) for k in cc[0].keywords}['focal_length'] != 'focal_length':
+        raise Refuse('Wavefront.empty does not pass focal_length=focal_length to the constructor')
+    ini = _find_method(wmod, 'Wavefront', '__init__')
+    fa = [st for st in ast.walk(ini) if isinstance(st, ast.Assign) and ast.unparse(st.targets[0]) == 'self.focal_length']
+    if len(fa) != 1: raise Refuse('Wavefront.__init__: assignment of self.focal_length not found')
+    def fterm(e):
+        if isinstance(e, ast.Name) and e.id == 'focal_length': return 'focal_length'
+        if ast.unparse(e) == 'np.inf': return 'np_inf'
+        if isinstance(e, ast.IfExp):
+            if not (isinstance(e.test, ast.Name) and e.test.id == 'focal_length'): raise Refuse('Wavefront.__init__: focal_length test not understood')
+            return f'(if truthy focal_length then {fterm(e.body)} else {fterm(e.orelse)})'
+        raise Refuse(f'Wavefront.__init__: focal_length expression {ast.unparse(e)}')
+    L.append(f'/-- translated from `wavefront.py:Wavefront.__init__` (line {fa[0].lineno}): `{ast.unparse(fa[0])}`; `truthy` is Python truthiness\n'
+             '(`None` and `0` are falsy) -/')
+    L.append('def wavefrontInitFocal {M : Type} (truthy : M → Bool) (np_inf : M) (focal_length : M) : M :=\n  ' + fterm(fa[0].value) + '\n')
     return '\n'.join(L), [f'Wavefront.empty keywords: {src}', f'_mul_pixelscale args: {pxa}', f'shape rule: {sha} if self.shape == () else {shb}']
 
 from py2lean import Refuse
@@ -167,3 +187,48 @@ def gen_phase(repo):
     return text, [f'np.exp argument: {ast.unparse(arg)}', f'real multiplier: {t}']
 
 MODULES.append({'name': 'PlanePhase', 'src': 'lentil/plane.py', 'generator': gen_phase, 'props': ['C07', 'C03']})
+
+
+# ---------------------------------------------------------------------------------------------------------------------
+# Wiring of the Wavefront views: which of field / intensity / insert starts from zeros(self.shape), iterates
+# lentil.field.reduce(self.data) rather than self.data, asks lentil.field.insert for intensity=True, passes weight=weight.
+def gen_views(repo):
+    import os
+    mod = ast.parse(open(os.path.join(repo, 'lentil/wavefront.py')).read())
+    L = ['/-- how a view of `Wavefront` drives `lentil.field.insert` -/',
+         'structure ViewWiring where\n  zeros : Bool\n  reduce : Bool\n  intensity : Bool\n  weighted : Bool\nderiving DecidableEq, Repr\n']
+    notes = []
+    for meth in ('field', 'intensity', 'insert'):
+        fn = _find_method(mod, 'Wavefront', meth)
+        st = [s for s in fn.body if not (isinstance(s, ast.Expr) and isinstance(s.value, ast.Constant))]
+        zeros = False
+        if isinstance(st[0], ast.Assign) and ast.unparse(st[0].targets[0]) == 'out':
+            v = st[0].value
+            if not (isinstance(v, ast.Call) and ast.unparse(v.func) == 'np.zeros' and ast.unparse(v.args[0]) == 'self.shape'):
+                raise Refuse(f'Wavefront.{meth}: initialisation of out not understood: {ast.unparse(st[0])}')
+            zeros = True; st = st[1:]
+        elif 'out' not in [a.arg for a in fn.args.args]: raise Refuse(f'Wavefront.{meth}: no out array')
+        if len(st) != 2 or not isinstance(st[0], ast.For) or ast.unparse(st[1]) != 'return out': raise Refuse(f'Wavefront.{meth}: body shape changed')
+        loop = st[0]
+        it = ast.unparse(loop.iter)
+        if it == 'self.data': red = False
+        elif it == 'lentil.field.reduce(self.data)': red = True
+        else: raise Refuse(f'Wavefront.{meth}: iterates {it}')
+        if len(loop.body) != 1 or not isinstance(loop.body[0], ast.Assign) or ast.unparse(loop.body[0].targets[0]) != 'out':
+            raise Refuse(f'Wavefront.{meth}: loop body changed')
+        call = loop.body[0].value
+        if not (isinstance(call, ast.Call) and ast.unparse(call.func) == 'lentil.field.insert' and [ast.unparse(a) for a in call.args] == [ast.unparse(loop.target), 'out']):
+            raise Refuse(f'Wavefront.{meth}: not out = lentil.field.insert(field, out, ...)')
+        kw = {k.arg: ast.unparse(k.value) for k in call.keywords}
+        if set(kw) - {'intensity', 'weight'}: raise Refuse(f'Wavefront.{meth}: insert keywords {kw}')
+        inten = {'True': True, 'False': False, None: False}.get(kw.get('intensity'), 'bad')
+        if inten == 'bad': raise Refuse(f'Wavefront.{meth}: intensity={kw["intensity"]}')
+        if kw.get('weight') not in (None, 'weight'): raise Refuse(f'Wavefront.{meth}: weight={kw["weight"]}')
+        w = 'weight' in kw
+        b = lambda x: 'true' if x else 'false'
+        L.append(f'/-- translated from `wavefront.py:Wavefront.{meth}` (line {fn.lineno}) -/')
+        L.append(f'def {meth}Wiring : ViewWiring := {{ zeros := {b(zeros)}, reduce := {b(red)}, intensity := {b(inten)}, weighted := {b(w)} }}\n')
+        notes.append(f'{meth}: zeros={zeros} reduce={red} intensity={inten} weighted={w}')
+    return '\n'.join(L), notes
+
+MODULES.append({'name': 'WfViews', 'src': 'lentil/wavefront.py', 'generator': gen_views, 'props': ['C07', 'C03']})
